@@ -165,7 +165,7 @@ ModelOut ==
                             Fx(b * cat[j][c][v] + a, b * cnt[c] + a * NCat[j], SP)]]]]
 
 ModelEvent ==
-    Params @@ [e |-> 0, Spr |-> SPR, Sg |-> SG, Sp |-> SP, status |-> "ok", statsOk |-> TRUE, out |-> ModelOut,
+    Params @@ [e |-> 0, ecol |-> <<>>, backend |-> "dense", Spr |-> SPR, Sg |-> SG, Sp |-> SP, status |-> "ok", statsOk |-> TRUE, out |-> ModelOut,
                queries |-> Queries, predStatus |-> "ok", preds |-> preds, predsInt |-> TRUE]
 
 (* INVARIANTS *)
